@@ -34,7 +34,7 @@ def H(name, prop, fn, desc, bounds, tier=None, kind=None, cap_s=300, mem_gb=3, f
     parts = name.split("_")
     tier = tier or parts[1][0]
     kind = kind or ("attempt" if parts[1].endswith("a") else "required")
-    assert tier in ("q", "t") and name.startswith(prop.lower() + "_") or family
+    assert tier in ("q", "t", "r") and name.startswith(prop.lower() + "_") or family  # r = replay-only (never scheduled)
     assert not any(h["name"] == name for h in ALL), name
     ALL.append(dict(name=name, prop=prop, fn=fn, desc=desc, bounds=bounds, tier=tier, kind=kind, cap_s=cap_s,
                     mem_gb=mem_gb, family=family or ("p_" + prop.lower()), also=list(also), stubset=stubset,
@@ -108,7 +108,7 @@ for n in range(0, 3):
     KLEX(n, 1, 0, "q", cap=900, mem=6)
 for n in (3, 4):
     KLEX(n, 1, 0, "t", cap=5400, mem=14)
-KLEX(5, 1, 0, "t", cap=7200, mem=24, kind="attempt")
+KLEX(5, 1, 0, "t", cap=5400, mem=16)
 for n in (1, 2, 3):
     KLEX(n, 2, 0, "q", cap=600, mem=4)
 for n in (1, 2):
@@ -155,11 +155,11 @@ for t in INTS:
 H("c07_q_bool_numeric", "C07", "c07::bool_numeric", "bool from a decimal literal == 'rounds to non-zero', for every "
   "non-NaN f64", "all non-NaN f64", cap_s=120, mem_gb=2, stubset="float", also=["C08"])
 for t, n, tier in [("u8", 3, "q"), ("u8", 4, "q"), ("i8", 4, "q"), ("u16", 5, "q"), ("i16", 5, "q"), ("i32", 5, "q"),
-                   ("u64", 5, "q"), ("i16", 6, "t"), ("i32", 9, "ta"), ("u32", 10, "ta"), ("i64", 10, "ta")]:
+                   ("u64", 5, "q"), ("i16", 6, "t"), ("i32", 9, "ta")]:
     H(f"c07_{tier}_nr1_{t}_n{n}", "C07", f"c07::nr1::<{t}, {n}, _>",
       f"{t} from every NR1 literal of exactly {n} bytes (optional sign, digits) through the REAL lexical-core integer "
       f"parser == reference accumulator value, or -222 when outside the type", f"all NR1 literals of {n} bytes",
-      cap_s=(3600 if tier == "ta" else 600), mem_gb=4, stubset="float", unwind=12)
+      cap_s=(1800 if tier == "ta" else 600), mem_gb=4, stubset="float", unwind=12)
 
 # ---------------------------------------------------------------------------- C08 (K-conv)
 for t in ("f32", "f64"):
@@ -182,31 +182,33 @@ H("c08_q_accept_matrix", "C08", "c08::accept_matrix", "every (target, element ty
 # ---------------------------------------------------------------------------- C09 (K-fmt)
 for t in INTS:
     wide = t not in ("u8", "i8", "u16", "i16")
-    fams = [(1, "q", "|v| < 100000"), (2, "q", "within 100000 of MIN/MAX"), (0, "ta", "every value")] if wide else [(0, "q", "every value")]
+    fams = [(1, "q", "|v| < 100000"), (2, "q", "within 100000 of MIN/MAX")] + ([(0, "ta", "every value")] if t in ("u32", "i64") else []) if wide else [(0, "q", "every value")]
     for fam, tier, fd in fams:
         H(f"c09_{tier}_dec_{t}_f{fam}", "C09", f"c09::dec_{t}::<{fam}, _>",
           f"{t} formatted as decimal response data: an independent <NR1> decoder returns the value ({fd})", f"{t}: {fd}",
-          cap_s=(900 if tier == "q" else 3600), mem_gb=3, unwind=24, sample=(t == "u8"))
+          cap_s=(900 if tier == "q" else 1800), mem_gb=3, unwind=24, sample=(t == "u8"))
     for radix in (16, 8, 2):
         small = not wide
         tier = "q" if (small or radix == 16) else "ta"
+        if tier == "ta" and t not in ("u32", "u64"):
+            continue
         H(f"c09_{tier}_radix{radix}_{t}", "C09", f"c09::int_nondecimal::<{t}, {radix}, _>",
           f"{t} (non-negative) formatted as #{'H' if radix == 16 else 'Q' if radix == 8 else 'B'} response data: an independent "
-          f"shift decoder returns the value", f"every non-negative {t}", cap_s=(900 if tier == "q" else 3600), mem_gb=3,
+          f"shift decoder returns the value", f"every non-negative {t}", cap_s=(900 if tier == "q" else 1800), mem_gb=3,
           unwind=(20 if small else 70))
 H("c09_q_bool_sentinels", "C09", "c09::bool_and_sentinels", "bool -> 0/1; NaN -> 9.91E+37, +-infinity -> +-9.9E+37 exactly, "
   "for f32 and f64", "both bools; every non-finite f32/f64 bit pattern", cap_s=300, mem_gb=3, unwind=12)
-for n, q, tier in ((0, 0, "q"), (1, 0, "q"), (2, 0, "q"), (3, 0, "t"), (4, 0, "t"), (5, 0, "ta"), (6, 0, "ta"),
-                   (1, 1, "q"), (2, 1, "q"), (3, 1, "t"), (3, 2, "t"), (4, 2, "ta")):
+for n, q, tier in ((0, 0, "q"), (1, 0, "q"), (2, 0, "q"), (3, 0, "t"), (4, 0, "t"), (5, 0, "ta"),
+                   (1, 1, "q"), (2, 1, "q"), (3, 1, "t"), (3, 2, "ta")):
     qd = "without a double quote" if q == 0 else f"holding {q} double quote(s)"
     H(f"c09_{tier}_string_n{n}_q{q}_dec", "C09", f"c09::string::<{n}, {q}, {n + 2 + q}, false, _>",
       f"ASCII byte string of {n} bytes {qd}: the quoted response decodes (independent un-doubling decoder) to the original "
-      f"bytes", f"all ASCII strings of {n} bytes {qd}", cap_s=(900 if tier == "q" else 3600), mem_gb=(4 if n < 4 else 10),
+      f"bytes", f"all ASCII strings of {n} bytes {qd}", cap_s=(900 if tier == "q" else 2400), mem_gb=(4 if n < 4 else 10),
       unwind=n * 2 + 8, stubset="ascii")
     if q == 0:
         H(f"c09_{tier}_string_n{n}_q{q}_own", "C09", f"c09::string::<{n}, {q}, {n + 2 + q}, true, _>",
           f"ASCII byte string of {n} bytes {qd}: the response re-lexes (own parser) to one string element with the original "
-          f"bytes", f"all ASCII strings of {n} bytes {qd}", cap_s=(900 if tier == "q" else 3600),
+          f"bytes", f"all ASCII strings of {n} bytes {qd}", cap_s=(900 if tier == "q" else 2400),
           mem_gb=(4 if n < 4 else 10), unwind=n * 2 + 8, stubset="ascii")
 for n, q in ((1, 1),):
     H(f"c09_q_kf14_string_n{n}_q{q}_own", "C09", f"c09::string::<{n}, {q}, {n + 2 + q}, true, _>",
@@ -227,13 +229,13 @@ for n in (0, 1, 3, 6):
       f"all valid expression content of {n} bytes", cap_s=900, mem_gb=2, unwind=n + 8)
 for l, tier in ((0, "q"), (1, "q"), (2, "t"), (3, "ta")):
     H(f"c09_{tier}_list_l{l}", "C09", f"c09::list::<{l}, _>", f"ArrayVec of {l} u16 values: comma-joined decimal elements in "
-      f"order; empty list -> error", f"all u16 element values", cap_s=(1200 if tier == "q" else 3600), mem_gb=5, unwind=24)
-for ml, xl, tier in ((1, 0, "q"), (2, 0, "t"), (1, 1, "t"), (3, 0, "t"), (3, 2, "ta")):
+      f"order; empty list -> error", f"all u16 element values", cap_s=(1200 if tier == "q" else 2400), mem_gb=5, unwind=24)
+for ml, xl, tier in ((1, 0, "q"), (2, 0, "t"), (1, 1, "t"), (3, 0, "ta")):
     H(f"c09_{tier}_error_item_m{ml}_x{xl}", "C09", f"c09::error_item::<{ml}, {xl}, _>", f"error-queue item: custom error, "
       f"any number, {ml}-byte symbolic printable message" + (f", {xl}-byte symbolic extended text" if xl else "") +
       ": formatted as code,\"message[;extended]\": the code decodes to the number, the text is a well-formed quoted "
       "string (quotes doubled) that decodes to the message", "all i16 numbers; all printable message / extended bytes "
-      "(incl. the double quote)", cap_s=(900 if tier == "q" else 3600), mem_gb=(6 if tier == "q" else 16), unwind=16,
+      "(incl. the double quote)", cap_s=(900 if tier == "q" else 2400), mem_gb=(6 if tier == "q" else 16), unwind=16,
       also=["C13"], stubset="ascii")
 H("c09_q_std_messages_plain", "C09", "c09::std_messages_plain", "every standard error message is printable ASCII without a "
   "double quote (so formatting a standard error item is the custom-message case)", "all standard variants", cap_s=600,
@@ -248,7 +250,7 @@ for u, tier in ((1, "q"), (2, "q"), (3, "t")):
       f"all scripts of <= {u} units x <= 3 data", cap_s=(900 if tier == "q" else 5400), mem_gb=(5 if u < 3 else 10),
       unwind=22 * u + 4, sample=(u == 1))
 H("c10_ta_framing_vec_u1", "C10", "c10::framing_vec::<1, _>", "same script on the growable Vec<u8> formatter",
-  "all scripts of <= 1 unit x <= 3 data", cap_s=3600, mem_gb=8, unwind=20)
+  "all scripts of <= 1 unit x <= 3 data", cap_s=1800, mem_gb=8, unwind=30)
 
 # ---------------------------------------------------------------------------- C11 (K-fmt part; built WITHOUT alloc)
 for cap in range(0, 9):
@@ -258,10 +260,10 @@ for cap in range(0, 9):
       f"returns -225 and leaves the buffer unchanged; never beyond the capacity, never a panic",
       f"capacity {cap}; all 4-step scripts", cap_s=600, mem_gb=3, unwind=14, noalloc=True, sample=(cap == 3))
 for el in ("u16", "i32", "hex_u16", "bool", "string", "block", "char_expr", "error", "list", "enum"):
-    H(f"c11_{'t' if el == 'error' else 'q'}_element_{el}", "C11", f"c11::element_{el}",
+    H(f"c11_{'ta' if el == 'error' else 'q'}_element_{el}", "C11", f"c11::element_{el}",
       f"ResponseData element '{el}' formatted into a formatter with a symbolic byte budget: fits => complete and identical "
       f"bytes; does not fit => returns exactly the formatter's -225, written bytes are a prefix, no write after the failure",
-      "every budget 0..48; element value symbolic", cap_s=(3600 if el == "error" else 900),
+      "every budget 0..48; element value symbolic", cap_s=(2400 if el == "error" else 900),
       mem_gb=(10 if el in ("error", "string") else 5), unwind=(12 if el == "string" else 20), noalloc=True,
       stubset=("ascii" if el in ("string", "error", "char_expr") else "none"))
 for cap in (0, 1, 3, 6, 7):
@@ -300,10 +302,10 @@ for ql in (0, 1, 2, 3):
 H("c13_q_count_any", "C13", "c13::count_any", "SYSTem:ERRor:COUNt? on a device whose queue reports an arbitrary number of "
   "unread items (< 100000): the response decodes to exactly that number", "all register states; any count < 100000",
   cap_s=600, mem_gb=4, unwind=12)
-for ql, tier in ((0, "q"), (1, "q"), (2, "ta"), (3, "ta")):
+for ql, tier in ((0, "q"), (1, "q"), (2, "ta")):
     H(f"c13_{tier}_all_q{ql}", "C13", f"c13::all::<{ql}, _>", f"SYSTem:ERRor:ALL? with {ql} queued errors: all items in "
       f"order, queue emptied; empty -> 0,'No error'", "error numbers -999..-100 (fixed item width); queue length concrete",
-      cap_s=(900 if tier == "q" else 7200), mem_gb=(5 if tier == "q" else 12), unwind=12)
+      cap_s=(900 if tier == "q" else 2400), mem_gb=(5 if tier == "q" else 12), unwind=12)
 
 # ---------------------------------------------------------------------------- C14
 H("c14_q_custom_mask", "C14", "c14::custom_mask", "Error::custom(c,_).esr_mask() and ErrorCode::Custom(c,_).esr_mask() "
@@ -367,7 +369,7 @@ H("c17_q_resolve_time", "C17", "c17::resolve_time", "NumericValue<uom Time(f32)>
 QTYS = ["Potential", "Current", "Power", "Energy", "Charge", "Capacitance", "Inductance", "Resistance", "Conductance",
         "Frequency", "Time", "Angle", "Ratio", "Temperature"]
 for q in QTYS:
-    lens = [(6, "q", 900), (12, "ta", 3600)]
+    lens = [(6, "q", 900)] + ([(12, "ta", 1800)] if q in ("Time", "Energy", "Frequency") else [])
     for L, tier, cap in lens:
         H(f"c18_{tier}_suffix_{q.lower()}_{L}", "C18", f"c18::suffix::<c18::{q}, {L}, _>",
           f"{q} <- (1.5, suffix of 1..{L} symbolic bytes): accepted => the suffix reads as [SCPI multiplier]"
@@ -375,10 +377,11 @@ for q in QTYS:
           f"suffix the library documents is accepted in any letter case; otherwise an error",
           f"suffix <= {L} bytes over the suffix alphabet; number fixed to 1.5",
           cap_s=cap, mem_gb=4, stubset="float", unwind=14, sample=(q == "Energy" and L == 6))
-    H(f"c18_ta_scale_{q.lower()}", "C18", f"c18::scale::<c18::{q}, _>",
+    if q in ("Time", "Ratio", "Potential"):
+      H(f"c18_ta_scale_{q.lower()}", "C18", f"c18::scale::<c18::{q}, _>",
       f"{q}: for each suffix the library documents (concrete text) and EVERY moderate f32 the value is the number scaled "
       f"by the suffix's SCPI multiplier and unit (relative tolerance 2e-6)", "number any f32 with |v| in [1e-15,1e15] or 0; "
-      "documented suffixes", cap_s=3600, mem_gb=4, stubset="float", unwind=14)
+      "documented suffixes", cap_s=1800, mem_gb=4, stubset="float", unwind=14)
     H(f"c18_q_bare_{q.lower()}", "C18", f"c18::bare_and_other::<c18::{q}, _>",
       f"{q}: a bare number is taken in the base unit; character/string/block/expression/non-decimal elements are rejected",
       "number any moderate f32; 3 symbolic payload bytes", cap_s=300, mem_gb=3, stubset="float", unwind=8)
@@ -434,7 +437,7 @@ for e, d in ENUMS.items():
 
 
 # ---------------------------------------------------------------------------- RL-tok (thorough tier; one at a time)
-for L, cap, pull, opt, kind, capS in ((1, 8, 0, "false", "ta", 3600), (2, 8, 1, "false", "ta", 5400), (3, 8, 0, "false", "ta", 7200)):
+for L, cap, pull, opt, kind, capS in ((1, 8, 0, "false", "ta", 1800), (3, 8, 0, "false", "r", 7200)):
     H(f"c10_{kind}_rl_flat_l{L}_cap{cap}_p{pull}{'o' if opt == 'true' else 'r'}", "C10", f"rl::flat::<{L}, {cap}, {pull}, {opt}, _>",
       f"ATTEMPT - the real Node::run at token level: every lexable script of exactly {L} tokens (: ? ; separator , A *C "
       f"unknown number chardata lexer-error) on the flat tree {{A, *C}} with logging handlers (symbolic failing call; every "
@@ -442,7 +445,7 @@ for L, cap, pull, opt, kind, capS in ((1, 8, 0, "false", "ta", 3600), (2, 8, 1, 
       f"hook exactly once with the returned error / never on success, no handler after the failing one; for well-formed "
       f"units: designated handler and form, -113, -109, -108, offered parameters, response framing incl. the final NL",
       f"all lexable token scripts of length {L}; flat tree; capacity {cap}", cap_s=capS, mem_gb=45,
-      family="p_rl", stubset="tok", unwind=L + 2, also=["C06"])
+      family="p_rl", stubset="tok", unwind=L + 2)
 
 # ---------------------------------------------------------------------------- C01: a representative subset re-run under its id
 C01_SET = set(
